@@ -545,10 +545,10 @@ def run(check, ctx):
                              cite="bcrypt: 72-byte key limit; NUL-terminated key"))
     # the cipher under bcrypt accepts every key bcrypt can build: 1..72 bytes (password + NUL, or 72 bytes as they are)
     EKS = "Crypto.Cipher._EKSBlowfish"
-    run_row(check, repo, Row("eksblowfish.keylen", "C12", EKS, "_create_base_cipher", I(0, 72),
+    run_row(check, repo, Row("eksblowfish.keylen", "C12", EKS, "_create_base_cipher", I(1, 72),
                              lambda v: {"args": {"dict_parameters": {"key": bytes(v), "salt": bytes(16), "cost": 10, "invert": True}}},
                              domain=I(0, 80), extra_points=(0, 1, 71, 72, 73), max_depth=1,
-                             cite="bcrypt keys are 1..72 bytes long (the 72-byte limit is enforced by bcrypt() itself); the cipher's own range is 0..72"))
+                             cite="bcrypt keys are 1..72 bytes long (the 72-byte limit is enforced by bcrypt() itself); the key is read cyclically, so the empty key is refused as well (see the C17 guard rows)"))
     # the terminating NUL is appended only below 72 bytes
     seen = {}
 
